@@ -25,6 +25,8 @@ class Recorder:
         self.events = []
 
     def log(self, ep, ev, **kw):
+        if ep == 'z':
+            return dict(self.FIELDS)
         e = dict(self.FIELDS)
         e['ep'] = ep
         e['ev'] = ev
@@ -240,7 +242,12 @@ def make_app_classes():
 
     class RecHandler(BaseRequestHandler):
         def __init__(self, world, ep):
-            self.w, self.ep = world, ep
+            self.w = world
+            self._cell = world._cell(ep)
+
+        @property
+        def ep(self):
+            return self._cell['ep']
 
         def _iid(self, payload, kind):
             pid = self.w.payloads.resolve(payload.data, payload.metadata)
@@ -365,7 +372,10 @@ class World:
         self.client_transports = []
         self.lease_sub = None
         self.errors = []
+        self.silent = False
+        self.last_iid = None
         self.loop.set_exception_handler(self._on_loop_exception)
+        self._ep_cells = {}
         flags = 0
         if opts.get('grants_logged', True):
             flags |= 1
@@ -377,7 +387,12 @@ class World:
             flags |= 8
         if opts.get('adapters'):
             flags |= 16
-        self.rec.log('-', 'meta', n=flags, kind=self.mode, x=opts.get('frag') or 0)
+        mimes = '%s|%s' % (opts.get('md_mime') or 'application/json', opts.get('data_mime') or 'application/json')
+        self.rec.log('-', 'meta', n=flags, kind=self.mode, x=opts.get('frag') or 0, ml=opts.get('keepalive_ms', 500),
+                     dl=opts.get('lifetime_ms', 600000), role=mimes,
+                     C=1 if opts.get('honor_lease_c') else 0,
+                     F=1 if (opts.get('server_lease_publisher') or (opts.get('honor_lease_c') and not opts.get('server_no_lease_publisher'))) else 0,
+                     N=1 if opts.get('on_setup_raises') else 0, pid=opts.get('setup_payload_pid_hint', 0))
 
     def _on_loop_exception(self, loop, context):
         msg = context.get('message', '')
@@ -466,6 +481,8 @@ class World:
         return self.opts.get('frag_' + ep, self.opts.get('frag'))
 
     def _make_link(self):
+        for d in self.dirs.values():
+            d.muted = True
         c2s = linkmod.Direction(self, 'c', 's', self.mode)
         s2c = linkmod.Direction(self, 's', 'c', self.mode)
         self.dirs = {'c': c2s, 's': s2c}   # keyed by SOURCE endpoint
@@ -494,6 +511,7 @@ class World:
     def _wrap_transport(self, ep, t):
         w = self
         orig_nfg = t.next_frame_generator
+        cell = self._cell(ep)
 
         async def next_frame_generator():
             g = await orig_nfg()
@@ -502,7 +520,7 @@ class World:
 
             async def wrapped():
                 async for frame in g:
-                    w.observe_rx(ep, frame)
+                    w.observe_rx(cell['ep'], frame)
                     yield frame
 
             return wrapped()
@@ -520,68 +538,99 @@ class World:
 
             t.connect = connect
 
+    def _cell(self, ep):
+        cell = {'ep': ep}
+        self._ep_cells.setdefault(ep, []).append(cell)
+        return cell
+
     def _instrument_endpoint(self, ep, sock):
         w = self
         orig_send = sock.send_frame
         orig_prio = sock.send_priority_frame
+        cell = self._cell(ep)
 
         def send_frame(frame):
-            w.observe_enq(ep, frame, 0)
-            return orig_send(frame)
+            r = orig_send(frame)          # logged only if the frame really entered the queue (put_nowait is synchronous)
+            w.observe_enq(cell['ep'], frame, 0)
+            return r
 
         def send_priority_frame(frame):
-            w.observe_enq(ep, frame, 1)
-            return orig_prio(frame)
+            r = orig_prio(frame)
+            w.observe_enq(cell['ep'], frame, 1)
+            return r
 
         sock.send_frame = send_frame
         sock.send_priority_frame = send_priority_frame
 
+    def _common_kwargs(self, ep):
+        o = self.opts
+        return dict(fragment_size_bytes=self._frag(ep),
+                    keep_alive_period=timedelta(milliseconds=o.get('keepalive_ms', 500)),
+                    max_lifetime_period=timedelta(milliseconds=o.get('lifetime_ms', 600000)))
+
+    def _make_server(self, c2s, s2c):
+        from rsocket.rsocket_server import RSocketServer
+        o = self.opts
+        w = self
+        old = self.eps.get('s')
+        if old is not None:
+            self.old_servers.append(old)
+            for cell in self._ep_cells.get('s', []):
+                cell['ep'] = 'z'          # events of a replaced server endpoint are no longer recorded
+            self._ep_cells['s'] = []
+        ts = self._make_transport('s', s2c, c2s)
+        self.transports['s'] = ts
+        kw = self._common_kwargs('s')
+        if o.get('honor_lease_c') and not o.get('server_no_lease_publisher'):
+            kw['lease_publisher'] = self._lease_publisher()
+        if o.get('server_lease_publisher'):
+            kw['lease_publisher'] = self._lease_publisher()
+        if o.get('honor_lease_s'):
+            kw['honor_lease'] = True
+            kw['request_queue_size'] = o.get('lease_queue', 0)
+
+        def on_ready(sock):
+            w._instrument_endpoint('s', sock)
+
+        self.eps['s'] = RSocketServer(ts, handler_factory=lambda: self.RecHandler(self, 's'), on_ready=on_ready, **kw)
+        if self.mode == 'msg':
+            self._srv_task = self.loop.create_task(ts.handle_incoming_ws_messages())
+
+    def _sink(self, in_dir, out_dir):
+        """the receiving side of a direction that ends at a scripted peer"""
+        if self.mode == 'tcp':
+            in_dir.reader = asyncio.StreamReader(limit=2 ** 26, loop=self.loop)
+        else:
+            in_dir.ws_in = linkmod.FakeWS(self.loop, out_dir, in_dir)
+
     def start(self, connect=True):
         """build both endpoints; returns after the client's connect() completed (if connect)"""
         from rsocket.rsocket_client import RSocketClient
-        from rsocket.rsocket_server import RSocketServer
         o = self.opts
         c2s, s2c = self._make_link()
         w = self
         peer = o.get('peer', 'none')
-
-        def common_kwargs(ep):
-            kw = dict(fragment_size_bytes=self._frag(ep),
-                      keep_alive_period=timedelta(milliseconds=o.get('keepalive_ms', 500)),
-                      max_lifetime_period=timedelta(milliseconds=o.get('lifetime_ms', 600000)))
-            return kw
-
+        self.old_servers = []
         if peer != 'server':
-            ts = self._make_transport('s', s2c, c2s)
-            self.transports['s'] = ts
-            kw = common_kwargs('s')
-            if o.get('honor_lease_c'):
-                kw['lease_publisher'] = self._lease_publisher()
-            if o.get('honor_lease_s'):
-                kw['honor_lease'] = True
-                kw['request_queue_size'] = o.get('lease_queue', 0)
-
-            def on_ready(sock):
-                w._instrument_endpoint('s', sock)
-
-            self.eps['s'] = RSocketServer(ts, handler_factory=lambda: self.RecHandler(self, 's'), on_ready=on_ready, **kw)
-            if self.mode == 'msg':
-                self._srv_task = self.loop.create_task(ts.handle_incoming_ws_messages())
+            self._make_server(c2s, s2c)
         else:
-            # raw scripted server: the driver reads c2s frames via observe_tx and injects bytes into s2c
-            if self.mode == 'tcp':
-                pass
+            self._sink(c2s, s2c)
 
         if peer != 'client':
             async def provider():
                 while True:
                     w.generation += 1
+                    limit = w.opts.get('max_transports')
+                    if limit is not None and w.generation > limit:
+                        return
                     if w.generation > 1:
-                        # a fresh link for every new connection
+                        # a fresh link (and a fresh server endpoint) for every new connection
+                        w.silent = False
                         nc2s, ns2c = w._make_link()
-                        hook = w.opts.get('on_new_connection')
-                        if hook:
-                            hook(w, nc2s, ns2c)
+                        if w.opts.get('peer', 'none') != 'server':
+                            w._make_server(nc2s, ns2c)
+                        else:
+                            w._sink(nc2s, ns2c)
                         tc = w._make_transport('c', nc2s, ns2c)
                     else:
                         tc = w._make_transport('c', c2s, s2c)
@@ -589,10 +638,11 @@ class World:
                     w.client_transports.append(tc)
                     w.rec.log('c', 'transport_taken', x=w.generation)
                     if w.opts.get('provider_suspends'):
-                        await asyncio.sleep(0)
+                        for _ in range(int(w.opts['provider_suspends'])):
+                            await asyncio.sleep(0)
                     yield tc
 
-            kw = common_kwargs('c')
+            kw = self._common_kwargs('c')
             if o.get('honor_lease_c'):
                 kw['honor_lease'] = True
                 kw['request_queue_size'] = o.get('lease_queue', 0)
@@ -601,30 +651,43 @@ class World:
                 kw['setup_payload'] = p
                 self.setup_pid = pid
             if o.get('data_mime'):
-                kw['data_encoding'] = o['data_mime']
+                kw['data_encoding'] = o['data_mime'].encode() if isinstance(o['data_mime'], str) else o['data_mime']
             if o.get('md_mime'):
-                kw['metadata_encoding'] = o['md_mime']
+                kw['metadata_encoding'] = o['md_mime'].encode() if isinstance(o['md_mime'], str) else o['md_mime']
             client = RSocketClient(provider(), handler_factory=lambda: self.RecHandler(self, 'c'), **kw)
             self._instrument_endpoint('c', client)
             self.eps['c'] = client
             if connect:
-                self.rec.log('c', 'app_connect')
+                self.rec.log('c', 'app_connect', pid=getattr(self, 'setup_pid', 0))
                 self._connect_task = self.loop.create_task(client.connect())
         else:
-            # raw scripted client towards a real server
-            in_dir = s2c
-            if self.mode == 'tcp':
-                in_dir.reader = asyncio.StreamReader(limit=2 ** 26, loop=self.loop)
-            else:
-                in_dir.ws_in = linkmod.FakeWS(self.loop, c2s, s2c)
-        if peer == 'server':
-            in_dir = c2s
-            if self.mode == 'tcp':
-                in_dir.reader = asyncio.StreamReader(limit=2 ** 26, loop=self.loop)
-            else:
-                in_dir.ws_in = linkmod.FakeWS(self.loop, s2c, c2s)
+            self._sink(s2c, c2s)
         self.loop.run_ready()
         return self
+
+    # ---- scripted peer ------------------------------------------------------------------------------------------------
+    def peer_send(self, body, towards):
+        """the scripted peer puts one frame on the link towards the real endpoint and it is delivered at once"""
+        src = 's' if towards == 'c' else 'c'
+        d = self.dirs[src]
+        if d.cut is not None:
+            return False
+        d.inject(len(body).to_bytes(3, 'big') + body if self.mode == 'tcp' else body)
+        d.deliver()
+        return True
+
+    def _scripted_server_sees(self, f):
+        """reaction of the scripted server to a frame of the real client (keep-alive acknowledgement patterns)"""
+        pat = self.opts.get('ka') or {'mode': 'always'}
+        if f['ft'] == 'KEEPALIVE' and f['F']:
+            now = self.loop.time() * 1000.0
+            mode = pat.get('mode', 'always')
+            ack = (mode == 'always') or (mode == 'stop_at' and now < pat.get('stop_ms', 0)) or \
+                  (mode == 'only_after' and now >= pat.get('start_ms', 0))
+            if ack:
+                body = wire.encode('KEEPALIVE', flags=0, extra=(f.get('pos', 0)).to_bytes(8, 'big'), d=f['d'])
+                delay = pat.get('delay_ms', 0) / 1000.0
+                self.loop.call_later(delay, self.peer_send, body, 'c')
 
     def _lease_publisher(self):
         from reactivestreams.publisher import Publisher
@@ -686,12 +749,14 @@ class World:
             c['d'] = doff + dl
 
     def observe_enq(self, ep, frame, prio):
+        if ep == 'z':
+            return
         ft = getattr(getattr(frame, 'frame_type', None), 'name', str(getattr(frame, 'frame_type', '?')))
         md = frame.metadata or b''
         d = frame.data or b''
         if ft == 'SETUP' or ft == 'LEASE' or ft == 'KEEPALIVE' or ft == 'ERROR':
-            pid = self.payloads.resolve(d, md) if ft == 'SETUP' else 0
-            mpid = dpid = pid
+            pid = self.payloads.resolve(d, md) if ft in ('SETUP', 'KEEPALIVE') else 0
+            pid = max(pid, 0) if ft == 'KEEPALIVE' else pid
         else:
             pid = self.payloads.resolve(d, md)
         n = 0
@@ -723,6 +788,8 @@ class World:
         ft = f['ft']
         md, d = f.get('md', b''), f.get('d', b'')
         mpid = moff = dpid = doff = 0
+        if ft == 'KEEPALIVE':
+            dpid = max(self.payloads.resolve(d, b''), 0)
         if ft in ('REQUEST_RESPONSE', 'REQUEST_FNF', 'REQUEST_STREAM', 'REQUEST_CHANNEL', 'PAYLOAD', 'METADATA_PUSH', 'SETUP'):
             mpid, moff, dpid, doff = self._describe_parts(ep, f['sid'], chan, md, d)
             if ft in ('REQUEST_RESPONSE', 'REQUEST_FNF', 'REQUEST_STREAM', 'REQUEST_CHANNEL', 'PAYLOAD'):
@@ -732,12 +799,17 @@ class World:
         if ft == 'LEASE':
             x = f.get('ttl', 0)
             x = x if x < 2 ** 31 else -1
+        role = ''
         if ft == 'SETUP':
             x = f.get('keepalive', 0) if f.get('keepalive', 0) < 2 ** 31 else -1
+            n = f.get('lifetime', 0) if f.get('lifetime', 0) < 2 ** 31 else -1
+            f['code'] = (f.get('major', 0) << 16) | f.get('minor', 0)
+            role = '%s|%s' % (bytes(f.get('md_mime', b'')).decode('latin1'), bytes(f.get('d_mime', b'')).decode('latin1'))
         code = f.get('code', 0)
         self.rec.log(ep, ev, sid=f['sid'], ft=ft, n=n if n < 2 ** 31 else -1, F=f['F'], C=f['C'], N=f['N'], M=f['M'],
                      ml=len(md), dl=len(d), mpid=mpid, moff=moff, dpid=dpid, doff=doff,
-                     code=code if code < 2 ** 31 else -1, x=x, wl=f.get('wlen', 0))
+                     code=code if code < 2 ** 31 else -1, x=x, wl=f.get('wlen', 0), role=role,
+                     pid=self.payloads.resolve(d, md) if ft == 'SETUP' else 0)
 
     def observe_tx(self, ep, fb, prefixed):
         try:
@@ -754,11 +826,12 @@ class World:
         if f['ft'] == 'KEEPALIVE':
             f['x'] = len(f['d'])
         self._log_wire(ep, 'tx', f, 'tx')
-        hook = self.opts.get('on_tx')
-        if hook:
-            hook(self, ep, f)
+        if ep == 'c' and self.opts.get('peer') == 'server':
+            self._scripted_server_sees(f)
 
     def observe_rx(self, ep, frame):
+        if ep == 'z':
+            return
         ftype = getattr(frame, 'frame_type', None)
         if ftype is None:
             self.rec.log(ep, 'rx', ft='INVALID')
@@ -785,6 +858,11 @@ class World:
         elif ft == 'SETUP':
             f['F'] = bool(frame.flags_resume)
             f['C'] = bool(frame.flags_lease)
+            f['keepalive'] = frame.keep_alive_milliseconds
+            f['lifetime'] = frame.max_lifetime_milliseconds
+            f['major'], f['minor'] = frame.major_version, frame.minor_version
+            f['md_mime'] = bytes(frame.metadata_encoding)
+            f['d_mime'] = bytes(frame.data_encoding)
         self._log_wire(ep, 'rx', f, 'rx')
 
     def on_transport_closed(self, ep):
@@ -798,15 +876,20 @@ class World:
     def advance(self, ms):
         self.rec.log('-', 'tick', x=int(ms))
         self.loop.advance(ms / 1000.0)
+        self.rec.log('-', 'tock', x=int(ms))
 
     def deliver(self, src, k=None):
         n = self.dirs[src].deliver(k)
         self.loop.run_ready()
         return n
 
-    def pump(self, max_rounds=2000, chunk=None):
-        """deliver everything in both directions until the link is empty and nothing is ready"""
-        for _ in range(max_rounds):
+    def pump(self, max_rounds=400, chunk=None):
+        """deliver everything in both directions until the link is empty and nothing is ready.  Livelock guard (e.g. an
+        echo storm): a bound on rounds when whole buffers are delivered, on delivered volume when delivering in small chunks"""
+        start = sum(d.pending() for d in self.dirs.values())
+        delivered = 0
+        rounds = 0
+        while True:
             self.loop.run_ready()
             moved = 0
             for src in ('c', 's'):
@@ -816,7 +899,12 @@ class World:
                     self.loop.run_ready()
             if not moved:
                 return True
-        raise vloop.Budget('pump did not converge')
+            rounds += 1
+            delivered += moved
+            if (chunk is None or self.mode != 'tcp') and rounds > max_rounds:
+                raise vloop.Budget('pump did not converge (%d rounds)' % rounds)
+            if chunk is not None and self.mode == 'tcp' and delivered > 40 * start + 100000:
+                raise vloop.Budget('pump did not converge (%d bytes delivered)' % delivered)
 
     def gate(self, ep, k=None, close=False):
         g = self.dirs[ep].gate
